@@ -1,0 +1,57 @@
+// SPDX-FileCopyrightText: 2026 The Pion community <https://pion.ly>
+// SPDX-License-Identifier: MIT
+
+//go:build verif
+
+package webrtc
+
+// Spec functions for the contract-based verification in /verif (build tag verif).
+// They are ordinary Go in a pure subset: translated to SMT by govc, compiled
+// into the replay tests as the executable oracle.
+
+// specEdge is the JSEP / W3C §4.3.1 signaling edge table including rollback:
+// the target state of (cur, op, typ), or SignalingStateUnknown if there is no edge.
+func specEdge(cur SignalingState, op stateChangeOp, typ SDPType) SignalingState {
+	switch op {
+	case stateChangeOpSetLocal:
+		switch typ {
+		case SDPTypeOffer:
+			if cur == SignalingStateStable {
+				return SignalingStateHaveLocalOffer
+			}
+		case SDPTypePranswer:
+			if cur == SignalingStateHaveRemoteOffer {
+				return SignalingStateHaveLocalPranswer
+			}
+		case SDPTypeAnswer:
+			if cur == SignalingStateHaveRemoteOffer || cur == SignalingStateHaveLocalPranswer {
+				return SignalingStateStable
+			}
+		case SDPTypeRollback:
+			if cur == SignalingStateHaveLocalOffer || cur == SignalingStateHaveLocalPranswer {
+				return SignalingStateStable
+			}
+		}
+	case stateChangeOpSetRemote:
+		switch typ {
+		case SDPTypeOffer:
+			if cur == SignalingStateStable {
+				return SignalingStateHaveRemoteOffer
+			}
+		case SDPTypePranswer:
+			if cur == SignalingStateHaveLocalOffer {
+				return SignalingStateHaveRemotePranswer
+			}
+		case SDPTypeAnswer:
+			if cur == SignalingStateHaveLocalOffer || cur == SignalingStateHaveRemotePranswer {
+				return SignalingStateStable
+			}
+		case SDPTypeRollback:
+			if cur == SignalingStateHaveRemoteOffer || cur == SignalingStateHaveRemotePranswer {
+				return SignalingStateStable
+			}
+		}
+	}
+
+	return SignalingStateUnknown
+}
